@@ -133,12 +133,22 @@ def _run(pid, tier, seed, replay, scratch, t0):
         return 2
     budget = float(os.environ.get("VERIF_BUDGET_S", BUDGET[tier]))
     nshards = int(os.environ.get("VERIF_SHARDS", NSHARDS[tier]))
+    replay_hashseed = None
     if replay:
         nshards = 1
+        try:
+            rec = json.load(open(replay))
+            tier = rec.get("tier", tier)  # a recorded case is re-run in the tier and hash seed it was found in
+            if str(rec.get("hashseed", "")).isdigit():
+                replay_hashseed = int(rec["hashseed"])
+        except (OSError, ValueError):
+            pass
     procs = []
     for s in range(nshards):
         out = os.path.join(scratch, "shard%d.json" % s)
         hashseed = 0 if tier == "quick" else (s % 4)
+        if replay_hashseed is not None:
+            hashseed = replay_hashseed
         cmd = [PY, "-B", "-X", "faulthandler", "-m", "vf.worker", pid, "--tier", tier, "--seed", str(seed),
                "--shard", str(s), "--nshards", str(nshards), "--budget", str(budget), "--out", out]
         if replay:
